@@ -1,13 +1,260 @@
 package eng
 
 import (
+	"fmt"
+	"go/types"
+	"strings"
+
 	"golang.org/x/tools/go/ssa"
 )
 
-// Lock discipline hooks (stage 4). With no `guarded` declarations they are no-ops.
+// Lock-invariant reasoning for "one mutex guards some fields" (DESIGN section 3.3, Locks):
+//   - acquiring the mutex havocs the guarded fields (other goroutines may have run);
+//   - guarded fields may only be read with the mutex held (R or W) and written with W;
+//   - every Lock..Unlock is a critical section with a pre and a post snapshot;
+//   - `atomic ensures Q` is checked against the last critical section of each path, all earlier
+//     ones must leave the guarded state unchanged (cs-pure); at return no mutex is held.
+// For lock-based code this is a linearizability argument: the abstract operation takes effect at
+// an instant inside a critical section between call and return.
 
-func (e *Engine) lockCheck(st *State, fr *Frame, l *Loc, write bool, in ssa.Instruction) {}
+type guardInfo struct {
+	typ      *types.Named
+	fields   []int
+	mutex    int
+	typeName string
+}
 
-func (e *Engine) lockCheckMap(st *State, fr *Frame, m ssa.Value, write bool, in ssa.Instruction) {}
+func (e *Engine) guardsFor(t types.Type) []guardInfo {
+	n, ok := t.(*types.Named)
+	if !ok {
+		return nil
+	}
+	if o := n.Origin(); o != nil {
+		n = o
+	}
+	var out []guardInfo
+	for p, ps := range e.Specs {
+		if n.Obj().Pkg() == nil || p.Pkg != n.Obj().Pkg() {
+			continue
+		}
+		for _, g := range ps.Guards {
+			if g.Type != n.Obj().Name() {
+				continue
+			}
+			gi := guardInfo{typ: n, typeName: g.Type, mutex: -1}
+			st, ok := n.Underlying().(*types.Struct)
+			if !ok {
+				continue
+			}
+			for i := 0; i < st.NumFields(); i++ {
+				if st.Field(i).Name() == g.Mutex {
+					gi.mutex = i
+				}
+				for _, f := range g.Fields {
+					if st.Field(i).Name() == f {
+						gi.fields = append(gi.fields, i)
+					}
+				}
+			}
+			if gi.mutex >= 0 {
+				out = append(out, gi)
+			}
+		}
+	}
+	return out
+}
 
-func (e *Engine) lockAtReturn(st *State, fn *ssa.Function, spec *FuncSpec, ctx *specCtx) {}
+func mutexKey(ref *Term, typeName string, field int) string {
+	return fmt.Sprintf("%s|%s|%d", ref.Key(), typeName, field)
+}
+
+// guardOfLoc: if l addresses a guarded field (or something inside it) returns the mutex key.
+func (e *Engine) guardOfLoc(l *Loc) (string, bool) {
+	if l == nil || l.Kind != LHeap || len(l.Path) == 0 {
+		return "", false
+	}
+	for _, g := range e.guardsFor(l.Base) {
+		for _, f := range g.fields {
+			if l.Path[0].Field == f {
+				return mutexKey(l.Ref, g.typeName, g.mutex), true
+			}
+		}
+	}
+	return "", false
+}
+
+func (e *Engine) lockCheck(st *State, fr *Frame, l *Loc, write bool, in ssa.Instruction) {
+	mk, ok := e.guardOfLoc(l)
+	if !ok {
+		return
+	}
+	mode := st.locks[mk]
+	held := mode == "W" || (!write && mode == "R")
+	what := "read"
+	if write {
+		what = "write"
+	}
+	e.oblige(st, "lockset@"+what, "", e.ordinal(in), BoolT(held), "guarded field is accessed with its mutex held ("+what+")", in.Pos())
+}
+
+// noteGuardedValue remembers that a map value was loaded from a guarded field.
+func (e *Engine) noteGuardedValue(st *State, l *Loc, v Val) {
+	mk, ok := e.guardOfLoc(l)
+	if !ok {
+		return
+	}
+	if m, ok := v.(VMap); ok {
+		if st.guardedRefs == nil {
+			st.guardedRefs = map[string]string{}
+		}
+		st.guardedRefs[m.Ref.Key()] = mk
+	}
+}
+
+func (e *Engine) lockCheckMap(st *State, fr *Frame, mv ssa.Value, write bool, in ssa.Instruction) {
+	m, ok := e.val(st, fr, mv).(VMap)
+	if !ok || st.guardedRefs == nil {
+		return
+	}
+	mk, ok := st.guardedRefs[m.Ref.Key()]
+	if !ok {
+		return
+	}
+	mode := st.locks[mk]
+	held := mode == "W" || (!write && mode == "R")
+	what := "read"
+	if write {
+		what = "write"
+	}
+	e.oblige(st, "lockset@map"+what, "", e.ordinal(in), BoolT(held), "guarded map is accessed with its mutex held ("+what+")", in.Pos())
+}
+
+// havocGuarded forgets everything about the fields guarded by the mutex of object ref.
+func (e *Engine) havocGuarded(st *State, ref *Term, g guardInfo) {
+	stt := g.typ.Underlying().(*types.Struct)
+	for _, f := range g.fields {
+		l := &Loc{Kind: LHeap, Ref: ref, Base: g.typ, Path: []pathStep{{Field: f}}}
+		// the base type used for heap naming must be the same type the code uses (possibly instantiated):
+		ft := stt.Field(f).Type()
+		v := e.freshVal(st, ft, "guarded_"+stt.Field(f).Name())
+		if m, ok := v.(VMap); ok {
+			st.assume(Gt(m.Ref, Zero)) // lock invariant: the guarded map is never nil
+			if st.guardedRefs == nil {
+				st.guardedRefs = map[string]string{}
+			}
+			st.guardedRefs[m.Ref.Key()] = mutexKey(ref, g.typeName, g.mutex)
+		}
+		e.store(st, l, v)
+	}
+}
+
+// lockIntrinsic handles sync.(RW)Mutex methods on a guarded struct's mutex field.
+func (e *Engine) lockIntrinsic(st *State, fr *Frame, x *ssa.Call, name string, args []Val) bool {
+	var op string
+	switch name {
+	case "(*sync.RWMutex).Lock", "(*sync.Mutex).Lock":
+		op = "W"
+	case "(*sync.RWMutex).RLock":
+		op = "R"
+	case "(*sync.RWMutex).Unlock", "(*sync.Mutex).Unlock":
+		op = "uW"
+	case "(*sync.RWMutex).RUnlock":
+		op = "uR"
+	default:
+		return false
+	}
+	p, ok := args[0].(VPtr)
+	if !ok || p.L == nil || p.L.Kind != LHeap || len(p.L.Path) != 1 {
+		panic(unsupported("mutex that is not a field of a heap object"))
+	}
+	var g *guardInfo
+	for _, gi := range e.guardsFor(p.L.Base) {
+		if gi.mutex == p.L.Path[0].Field {
+			gi := gi
+			g = &gi
+		}
+	}
+	if g == nil {
+		panic(unsupported("mutex without a 'guarded ... by' declaration: " + p.L.Base.String()))
+	}
+	e.Assumptions["sync.(RW)Mutex provides mutual exclusion (writers) / shared access (readers); Go memory model"] = true
+	// with generic types the location base may be an instantiation; use the location's own base for naming
+	gl := *g
+	if n, ok := p.L.Base.(*types.Named); ok {
+		gl.typ = n
+	}
+	mk := mutexKey(p.L.Ref, g.typeName, g.mutex)
+	ord := -1
+	pos := fr.block.Instrs[0].Pos()
+	if x != nil {
+		ord = e.ordinal(x)
+		pos = x.Pos()
+	}
+	switch op {
+	case "W", "R":
+		e.oblige(st, "lockset@acquire", "", ord, BoolT(st.locks[mk] == ""), "mutex is not already held by this call (self-deadlock)", pos)
+		st.locks[mk] = op
+		e.havocGuarded(st, p.L.Ref, gl)
+		st.cs = append(st.cs, critSection{mode: op, mutex: mk, pre: copyHeaps(st.heaps), open: true})
+	case "uW", "uR":
+		want := "W"
+		if op == "uR" {
+			want = "R"
+		}
+		e.oblige(st, "lockset@release", "", ord, BoolT(st.locks[mk] == want), "mutex is held in the mode being released", pos)
+		st.locks[mk] = ""
+		for i := len(st.cs) - 1; i >= 0; i-- {
+			if st.cs[i].open && st.cs[i].mutex == mk {
+				st.cs[i].open = false
+				st.cs[i].post = copyHeaps(st.heaps)
+				break
+			}
+		}
+	}
+	return true
+}
+
+// lockAtReturn: balance, purity of the non-final sections, atomic clauses on the final one.
+func (e *Engine) lockAtReturn(st *State, fn *ssa.Function, spec *FuncSpec, ctx *specCtx) {
+	if len(spec.Atomic) == 0 && len(st.cs) == 0 {
+		return
+	}
+	for mk, mode := range st.locks {
+		if mode != "" {
+			e.obligeNoAssume(st, "lock-balanced", "", -1, False, "every mutex acquired is released on every path ("+mk[strings.Index(mk, "|")+1:]+")")
+		}
+	}
+	if len(spec.Atomic) == 0 {
+		return
+	}
+	// which object do the sections belong to: all sections of this call
+	var secs []critSection
+	for _, c := range st.cs {
+		if !c.open {
+			secs = append(secs, c)
+		}
+	}
+	var pre, post map[string]*Term
+	if len(secs) == 0 {
+		// no critical section on this path: the operation must be correct as a no-op on an arbitrary state
+		pre, post = st.heaps, st.heaps
+	} else {
+		last := secs[len(secs)-1]
+		pre, post = last.pre, last.post
+		for i, c := range secs[:len(secs)-1] {
+			pc := &specCtx{e: e, st: st, env: ctx.env, heaps: c.post, oldHeaps: c.pre, pkg: ctx.pkg, goal: true}
+			for _, pexpr := range spec.Pures {
+				g := pc.evalBool(pexpr.E)
+				e.obligeNoAssume(st, "cs-pure", fmt.Sprintf("%d", i), -1, g, "a critical section before the linearizing one leaves the guarded state unchanged: "+pexpr.Text)
+			}
+		}
+	}
+	ac := &specCtx{e: e, st: st, env: ctx.env, heaps: post, oldHeaps: pre, pkg: ctx.pkg, goal: true, iters: ctx.iters}
+	for i, a := range spec.Atomic {
+		lbl := a.Label
+		if lbl == "" {
+			lbl = fmt.Sprint(i)
+		}
+		e.obligeNoAssume(st, "atomic", lbl, -1, ac.evalBool(a.E), "atomic effect (linearization point in the last critical section): "+a.Text)
+	}
+}
